@@ -1884,6 +1884,13 @@ feature! {
                 return Some(NonNull::from(self).cast());
             }
 
+            // An empty `Vec` is, like `Option::None`, a subscriber that is not
+            // there: its `Some(OFF)` max level hint is a placeholder that must
+            // not cap the hints of the subscribers around it.
+            if id == TypeId::of::<NoneLayerMarker>() && self.is_empty() {
+                return Some(NonNull::from(&NONE_LAYER_MARKER).cast());
+            }
+
             // Someone is looking for per-subscriber filters. But, this `Vec`
             // might contain subscribers with per-subscriber filters *and*
             // subscribers without filters. It should only be treated as a
